@@ -40,6 +40,17 @@ def mk(prog):
     return Interp(prog, MODELS + models_serde.MODELS + models_std.MODELS, tm, unwind=8)
 
 
+TWIN_OPS = [{'op': 'any_prim', 'ty': 'u64', 'n': str(2**64 - 1)}, {'op': 'any_prim', 'ty': 'i64', 'n': str(-2**63)}, {'op': 'any_json', 'doc': '18446744073709551615'},
+            {'op': 'any_json', 'doc': '[1,-2,3.5,"x",null,true,{"k":[]}]'}, {'op': 'any_prim', 'ty': 'i8', 'n': '-128'}, {'op': 'any_prim', 'ty': 'u8', 'n': '255'},
+            {'op': 'any_prim', 'ty': 'i128', 'n': str(-2**127)}, {'op': 'any_prim', 'ty': 'u128', 'n': str(2**128 - 1)}, {'op': 'any_prim', 'ty': 'bool', 'n': '1'},
+            {'op': 'any_prim', 'ty': 'char', 'n': '65'}, {'op': 'any_prim', 'ty': 'f64', 'n': str(0x7ff8000000000001)}, {'op': 'any_prim', 'ty': 'f32', 'n': str(0x3dcccccd)},
+            {'op': 'any_prim', 'ty': 'f64', 'n': str(0x3fb999999999999a)}, {'op': 'any_prim', 'ty': 'i16', 'n': '-32768'}, {'op': 'any_prim', 'ty': 'u32', 'n': str(2**32 - 1)}]
+
+
+def battery():
+    return [f'{o}: {r}' for o, r in zip(TWIN_OPS, replay(TWIN_OPS)) if not r.get('same')]
+
+
 def run(rep, tier):
     prog = program(['conjure_object'])
     rep.bounds['values'] = 'every integer width i8..i128 / u8..u128 at full bit width, bool, ASCII char, f32/f64 (all classes incl. every NaN payload), strings and byte strings of <= 4 bytes, unit, none/some; JSON number events u64/i64/f64'
@@ -62,7 +73,7 @@ def run(rep, tier):
         for s1, r1 in it.run(new, [v], st, {'T': T}):
             rep.states += 1
             if is_abnormal(r1):
-                rep.violation(f'C13:new:{tname}', f'Any::new::<{tname}> {r1!r}', {})
+                rep.structural(f'C13:new:{tname}', f'Any::new::<{tname}> {r1!r}', {}, battery)
                 continue
             okp = it.payload(r1, 'Ok')
             if okp is None or it.feasible(s1, it.variant_of(r1, 'Err')):
@@ -75,7 +86,7 @@ def run(rep, tier):
             for s2, r2 in it.run(into, [anyv], s1.fork(), {'T': T}):
                 rep.states += 1
                 if is_abnormal(r2):
-                    rep.violation(f'C13:into:{tname}', f'deserialize_into::<{tname}> {r2!r}', {})
+                    rep.structural(f'C13:into:{tname}', f'deserialize_into::<{tname}> {r2!r}', {}, battery)
                     continue
                 back = it.payload(r2, 'Ok')
                 bad = it.variant_of(r2, 'Err')
@@ -89,7 +100,7 @@ def run(rep, tier):
             for s4, r4 in it.run(ser_any[0], [s3.ref(anyv), Agg('Rec', ())], s3, {'S': ('path', 'Rec', ())}):
                 rep.states += 1
                 if is_abnormal(r4):
-                    rep.violation(f'C13:ser:{tname}', f'Serialize for Any {r4!r}', {})
+                    rep.structural(f'C13:ser:{tname}', f'Serialize for Any {r4!r}', {}, battery)
                     continue
                 ev = s4.aux.get('rec', ())
                 good = len(ev) == 1 and ev[0][0] == tname
@@ -105,8 +116,7 @@ def run(rep, tier):
     run_visitor_identity(rep, prog, ser_any[0])
     run_strings(rep, prog, new, into, ser_any[0])
     # twins
-    ops = [{'op': 'any_prim', 'ty': 'u64', 'n': str(2**64 - 1)}, {'op': 'any_prim', 'ty': 'i64', 'n': str(-2**63)}, {'op': 'any_json', 'doc': '18446744073709551615'},
-           {'op': 'any_json', 'doc': '[1,-2,3.5,"x",null,true,{"k":[]}]'}]
+    ops = TWIN_OPS
     res = replay(ops)
     rep.replayed += len(ops)
     for o, r in zip(ops, res):
@@ -131,11 +141,11 @@ def run_visitor_identity(rep, prog, ser_fn):
         for s1, r1 in it.run(vis[0], [Agg('conjure_object::any::de::AnyVisitor', ()), v], st, {'E': ('path', 'DeError', ())}):
             rep.states += 1
             if is_abnormal(r1):
-                rep.violation(f'C13:visit:{tname}', f'AnyVisitor::visit_{tname} {r1!r}', {})
+                rep.structural(f'C13:visit:{tname}', f'AnyVisitor::visit_{tname} {r1!r}', {}, battery)
                 continue
             okp = it.payload(r1, 'Ok')
             if okp is None:
-                rep.violation(f'C13:visit:{tname}', f'AnyVisitor::visit_{tname} fails', {})
+                rep.structural(f'C13:visit:{tname}', f'AnyVisitor::visit_{tname} fails', {}, battery)
                 continue
             s1.aux['rec'] = ()
             for s2, r2 in it.run(ser_fn, [s1.ref(okp.fields[0]), Agg('Rec', ())], s1, {'S': ('path', 'Rec', ())}):
@@ -161,7 +171,7 @@ def run_strings(rep, prog, new, into, ser_fn):
         rep.states += 1
         okp = it.payload(r1, 'Ok') if not is_abnormal(r1) else None
         if okp is None:
-            rep.violation('C13:new:str', f'Any::new(&str) {r1!r}', {})
+            rep.structural('C13:new:str', f'Any::new(&str) {r1!r}', {}, battery)
             continue
         anyv = okp.fields[0]
         for s2, r2 in it.run(into, [anyv], s1.fork(), {'T': ('path', 'std::string::String', ())}):
@@ -170,7 +180,14 @@ def run_strings(rep, prog, new, into, ser_fn):
             bad = z3.BoolVal(True) if back is None else z3.Or(it.variant_of(r2, 'Err'), z3.Not(bstr_eq(back.fields[0], s)))
             m = dec.decide('roundtrip:str', s2, bad, bytes=4)
             if m is not None:
-                rep.violation('C13:roundtrip:str', f'string {model_bytes(m, s)!r} does not survive Any::new + deserialize_into', {'hex': model_bytes(m, s).hex()})
+                txt = model_bytes(m, s)
+                op = {'op': 'any_json', 'doc': json.dumps(txt.decode('utf-8', 'replace'))}
+                r = replay([op])[0]
+                rep.replayed += 1
+                if not r.get('same'):
+                    rep.violation('C13:roundtrip:str', f'string {txt!r} does not survive the Any carrier: native {r}', {'op': op, 'native': r})
+                else:
+                    rep.inconc(f'model mismatch C13 string {txt!r}: native {r}')
         s3 = s1.fork()
         s3.aux['rec'] = ()
         for s4, r4 in it.run(ser_fn, [s3.ref(anyv), Agg('Rec', ())], s3, {'S': ('path', 'Rec', ())}):
@@ -180,7 +197,7 @@ def run_strings(rep, prog, new, into, ser_fn):
             bad = z3.BoolVal(True) if not good else z3.Not(bstr_eq(ev[0][1], s))
             m = dec.decide('events:str', s4, bad)
             if m is not None:
-                rep.violation('C13:events:str', f'Serialize for Any of a string emits {[e[0] for e in ev]}', {})
+                rep.structural('C13:events:str', f'Serialize for Any of a string emits {[e[0] for e in ev]}', {}, battery)
     finish_engine(rep, it)
 
 
